@@ -65,7 +65,7 @@ SPEC = {
         "C14_derived_set_concurrent", "C14_subtract_concurrent", "C14_skeleton_readableSet_SubtractReactive", "C14_counter_concurrent", "C14_sorted_set_concurrent",
         "C14_sorted_set", "C14_sorted_set_spec", "C14_sorted_set_members", "C14_sorted_set_absent_weight",
         "C14_eviction", "C14_eviction_unique", "C14_eviction_pre", "C14_eviction_concurrent", "C14_eviction_concurrent_safety", "C14_skeleton_ShrinkingMap_GetOrCreate",
-        "C14_compose_quiescent", "C14_compose_derived_set", "C14_compose_subtract", "C14_compose_unique", "C14_compose_unique_general", "C14_derived_var_replay_is_run", "C14_compose_late_publication_witness",
+        "C14_compose_quiescent", "C14_compose_derived_set", "C14_compose_subtract", "C14_compose_unique", "C14_compose_unique_general", "C14_compose_shapes_acyclic", "C14_compose_settle_is_run", "C14_derived_var_replay_is_run", "C14_compose_late_publication_witness",
         "C14_eviction_refines", "C14_eviction_locked", "C14_eviction_test_outside_lock_witness",
         "C14_skeleton_set_Add", "C14_skeleton_set_AddAll", "C14_skeleton_set_Delete", "C14_skeleton_set_DeleteAll", "C14_skeleton_set_Replace", "C14_skeleton_set_replace",
         "C14_eviction_fire", "C14_eviction_old_negative_witness", "C14_eviction_old_fractional_witness", "C14_eviction_old_loop_witness", "C14_eviction_old_loop_below_top",
@@ -88,7 +88,7 @@ SPEC = {
     ],
     "modelled": [
         "sets pointwise (membership functions; batches = (added, deleted) membership): faithful because ds.Set.Apply, SetArithmetic and the reactive set treat one element at a time; iteration order of ds.Set is not modelled (outputs are sorted)",
-        "compositions of DerivedSet / SubtractReactive as an executable transition system on one element (pointwise projection; unsubscription inside a composition is not modelled, it is in the single-level model)",
+        "compositions of DerivedSet / SubtractReactive as an executable transition system on one element (pointwise projection; subscriptions and unsubscriptions of DerivedSet sources inside the composition included)",
         "DerivedVariable/InheritFrom protocol model: input variables with update-order mutex, value store, callback execution lock, registration, per-subscription triggerWithInitialZeroValue flag; the derived variable's own subscribers are not modelled (compositional: acyclic derivation graph); compute = function of the inputs only (a compute that depends on currentValue defines a fold, not a function of the inputs)",
         "DerivedVariable call by call (inputs with values at creation, initial value, Unsubscribe, DeriveValueFrom)",
         "Counter, EvictionState (slots = Int: every integer slot type and, counted in quarters, float slots between two integers; evict = the registered slots up to the evicted one in ascending order; float slots beyond the exactly representable range and 64-bit unsigned slots above MaxInt64 not generated), WaitGroup (call by call and as protocol model with atomic steps = set insertion / deletion, counter add, Trigger)",
@@ -97,7 +97,7 @@ SPEC = {
         "unsubscribe functions are called at most once (a second call of a DerivedSet's unsubscribe subtracts the mirror again: modelled as the code does it, excluded by the theorem's hypothesis)",
     ],
     "manifest": {
-        "text": "Unbounded Lean theorems: for every history of source writes (Add/Delete/Apply/Replace), InheritFrom and unsubscriptions a DerivedSet equals the union of its live sources via occurrence counts (C14_derived_set), SubtractReactive the source minus the others (C14_subtract), a Counter the number of monitored inputs satisfying the condition (C14_counter), a SortedSet is sorted by current weight with consistent indices and Heaviest/Lightest at the ends and ignores weights of absent elements (C14_sorted_set*), an EvictionState has triggered exactly the events of slots up to the last evicted slot (C14_eviction*) for slots of either sign and float slots between two integers (C14_eviction_fire; witnesses C14_eviction_old_negative_witness, C14_eviction_old_fractional_witness, C14_eviction_old_loop_witness for the probing loop before the repairs), a DerivedVariable call by call equals compute of the inputs at its last recomputation, the current ones while subscribed, and is frozen by Unsubscribe (C14_derived_var_unsubscribe, C14_derived_var_frozen), under asynchronous in-order delivery (every interleaving of writers on different sources, subscribers, unsubscribers, Add/Delete and weight updates) DerivedSet, Counter and SortedSet satisfy the same at quiescence (C14_derived_set_concurrent, C14_counter_concurrent, C14_sorted_set_concurrent), a WaitGroup triggers iff its last pending element is marked done (C14_waitgroup_sequential, and C14_waitgroup / C14_waitgroup_only_if / C14_waitgroup_counter for any pool of Add/Done goroutines under every schedule); for any number of writers with arbitrary scripts and the constructor running concurrently - each subscription registering silently when its input holds the zero value and it was made without triggerWithInitialZeroValue, as OnUpdate does - a DerivedVariable equals compute(current inputs) at quiescence provided the LAST subscription carries the flag (C14_derived_var; necessary: C14_derived_var_needs_last_flag), which holds for NewDerivedVariable1..4 and InheritFrom by evaluating the subscription lists regenerated from variable.go (C14_derived_var_code, C14_facts_subscriptions, C14_facts_onupdate_guard; C14_derived_var_steady, C14_inherit); compositions: for any wiring of base sets, DerivedSets and SubtractReactive results of any depth under asynchronous delivery with every derived node publishing its change in the step that applies it, at quiescence every node satisfies its defining equation over the current values of its direct inputs, and for an acyclic wiring the equations have exactly one solution - the composed function (C14_compose_quiescent, C14_compose_derived_set, C14_compose_subtract, C14_compose_unique; C14_compose_late_publication_witness for publication outside the write mutex); EvictionState also at lock level with evict()'s test and update as separate steps under the write lock, by refinement to the call-level model (C14_eviction_refines, C14_eviction_locked; C14_eviction_test_outside_lock_witness for the test in front of the critical section); SubtractReactive and EvictionState have protocol-level theorems too (C14_subtract_concurrent, C14_eviction_concurrent); the lock scripts are computed from the regenerated skeletons, ranked for every instantiation, and no pool of catalogue calls deadlocks, fresh and conditional callback-lock acquisitions and leaf mutexes included (C14_scripts_ranked, C14_deadlock_free, C14_ranked_deadlock_free); the repaired addSorted callback always holds the mutex (C14_sorted_set_callback_locked). Witness theorems for the eight repaired defects (incl. the addSorted window, decided by a forced schedule through a second verif hook). Tie on every run: line-by-line differential of ~3200 random call histories against the real ds/reactive code, concurrent stress to quiescence (writers + structural changes) whose final input/derived values are decided by the Lean driver with the predicates of the theorems, progress watchdogs (sequential and concurrent), the forced WaitGroup schedule through a verif hook, an independent Go oracle of every defining function, slot types / slot jumps / sizes / values of every magnitude (4096, 65536, 2^20 thresholds; size scenarios up to 2^20 elements), 42 regenerated synchronisation skeletons and type facts (every write path of the reactive Set notifies inside its write mutex) and the regenerated subscription facts as proof obligations; forced schedules of the sixth round: a writer inside the m-th computation of a DerivedVariable constructor clearing later inputs (every arity, int/bool/string inputs), an observer that parks one writer inside its notification of an intermediate node / a plain set while a second writer makes the inverse change through another write path, evictors released from a barrier; a writer inside the OnUpdate window of every subscribing call through the hook VerifOnUpdateWindow; the forced DerivedVariable schedules are replayed on the protocol model with the flags regenerated from the code and must end with the implementation's derived value and inputs (C14_derived_var_replay_is_run: the replay is a run of the model); stress of stacked derivations (8 shapes two and three levels deep, DerivedVariable chains with a Counter on top, a SortedSet weighted by DerivedVariables, WithElements consumers) checked after every round.",
+        "text": "Unbounded Lean theorems: for every history of source writes (Add/Delete/Apply/Replace), InheritFrom and unsubscriptions a DerivedSet equals the union of its live sources via occurrence counts (C14_derived_set), SubtractReactive the source minus the others (C14_subtract), a Counter the number of monitored inputs satisfying the condition (C14_counter), a SortedSet is sorted by current weight with consistent indices and Heaviest/Lightest at the ends and ignores weights of absent elements (C14_sorted_set*), an EvictionState has triggered exactly the events of slots up to the last evicted slot (C14_eviction*) for slots of either sign and float slots between two integers (C14_eviction_fire; witnesses C14_eviction_old_negative_witness, C14_eviction_old_fractional_witness, C14_eviction_old_loop_witness for the probing loop before the repairs), a DerivedVariable call by call equals compute of the inputs at its last recomputation, the current ones while subscribed, and is frozen by Unsubscribe (C14_derived_var_unsubscribe, C14_derived_var_frozen), under asynchronous in-order delivery (every interleaving of writers on different sources, subscribers, unsubscribers, Add/Delete and weight updates) DerivedSet, Counter and SortedSet satisfy the same at quiescence (C14_derived_set_concurrent, C14_counter_concurrent, C14_sorted_set_concurrent), a WaitGroup triggers iff its last pending element is marked done (C14_waitgroup_sequential, and C14_waitgroup / C14_waitgroup_only_if / C14_waitgroup_counter for any pool of Add/Done goroutines under every schedule); for any number of writers with arbitrary scripts and the constructor running concurrently - each subscription registering silently when its input holds the zero value and it was made without triggerWithInitialZeroValue, as OnUpdate does - a DerivedVariable equals compute(current inputs) at quiescence provided the LAST subscription carries the flag (C14_derived_var; necessary: C14_derived_var_needs_last_flag), which holds for NewDerivedVariable1..4 and InheritFrom by evaluating the subscription lists regenerated from variable.go (C14_derived_var_code, C14_facts_subscriptions, C14_facts_onupdate_guard; C14_derived_var_steady, C14_inherit); compositions: for any wiring of base sets, DerivedSets and SubtractReactive results of any depth under asynchronous delivery with every derived node publishing its change in the step that applies it, subscriptions and unsubscriptions of DerivedSet sources interleaved, at quiescence every node satisfies its defining equation over the current values of the inputs it is subscribed to, and for an acyclic wiring the equations have exactly one solution - the composed function (C14_compose_quiescent, C14_compose_derived_set, C14_compose_subtract, C14_compose_unique; C14_compose_late_publication_witness for publication outside the write mutex); EvictionState also at lock level with evict()'s test and update as separate steps under the write lock, by refinement to the call-level model (C14_eviction_refines, C14_eviction_locked; C14_eviction_test_outside_lock_witness for the test in front of the critical section); SubtractReactive and EvictionState have protocol-level theorems too (C14_subtract_concurrent, C14_eviction_concurrent); the lock scripts are computed from the regenerated skeletons, ranked for every instantiation, and no pool of catalogue calls deadlocks, fresh and conditional callback-lock acquisitions and leaf mutexes included (C14_scripts_ranked, C14_deadlock_free, C14_ranked_deadlock_free); the repaired addSorted callback always holds the mutex (C14_sorted_set_callback_locked). Witness theorems for the eight repaired defects (incl. the addSorted window, decided by a forced schedule through a second verif hook). Tie on every run: line-by-line differential of ~3200 random call histories against the real ds/reactive code, concurrent stress to quiescence (writers + structural changes) whose final input/derived values are decided by the Lean driver with the predicates of the theorems, progress watchdogs (sequential and concurrent), the forced WaitGroup schedule through a verif hook, an independent Go oracle of every defining function, slot types / slot jumps / sizes / values of every magnitude (4096, 65536, 2^20 thresholds; size scenarios up to 2^20 elements), 42 regenerated synchronisation skeletons and type facts (every write path of the reactive Set notifies inside its write mutex) and the regenerated subscription facts as proof obligations; forced schedules of the sixth round: a writer inside the m-th computation of a DerivedVariable constructor clearing later inputs (every arity, int/bool/string inputs), an observer that parks one writer inside its notification of an intermediate node / a plain set while a second writer makes the inverse change through another write path, evictors released from a barrier; a writer inside the OnUpdate window of every subscribing call through the hook VerifOnUpdateWindow; the forced DerivedVariable schedules are replayed on the protocol model with the flags regenerated from the code and must end with the implementation's derived value and inputs (C14_derived_var_replay_is_run: the replay is a run of the model); stress of stacked derivations (8 shapes two and three levels deep, DerivedVariable chains with a Counter on top, a SortedSet weighted by DerivedVariables, WithElements consumers) checked after every round.",
         "note": "Trusted: Lean kernel; hand-written models (Hive/Model/Derived*.lean) tied by differential execution, quiescence predicates and regenerated skeletons; lock scripts hand-written (ranks proved, scripts tied only by skeletons + watchdog); derivation graph assumed acyclic, user callbacks opaque; compute functions of inputs only; unsubscribe functions called at most once.",
         "technique": "Lean 4 invariant proofs by induction over call histories and over reachable configurations of interleaving protocol models (arbitrary thread pools) + lock-rank theorem + differential / quiescence / skeleton correspondence",
     },
